@@ -6,7 +6,7 @@
    proved in proofs/OutcomeRoundTrip.v from the wire-level lemmas below. *)
 From stdpp Require Import gmap.
 From DS Require Import Base Decimal StreamValue Wire Sort Aggregators Outcome OutcomeCodec.
-From DS Require Import WireProofs StreamValueProofs OutcomeCodecProofs OutcomeRoundTrip ReportsNoPanic DecodedWf.
+From DS Require Import WireProofs StreamValueProofs OutcomeCodecProofs OutcomeRoundTrip ReportsNoPanic DecodedWf StepBytes.
 From DS Require CasesOutCodec.
 Open Scope Z_scope.
 
@@ -76,6 +76,18 @@ Theorem C10_decode_reencode_v1 : forall bs o, decode_outcome 1 bs = Ok o -> bok 
   exists bs', encode_outcome 1 o = Ok bs' /\ (small bs' -> decode_outcome 1 bs' = Ok o).
 Proof. exact decode_reencode_v1. Qed.
 Print Assumptions C10_decode_reencode_v1.
+
+(* ---- what loss-freeness buys: Plugin.Outcome at BYTE level refines the struct-level step ----
+   plugin_outcome decodes the previous outcome bytes, runs the step and encodes the result; Outcome.outcome_step — the
+   function all history theorems (C03-C06, C14, C18) are about — ends in codec_commit instead.  For observations as
+   ValidateObservation and the observation decoder deliver them (aos_good: uint32 ids, uint64 times, int32 scales,
+   nesting <= 2), decoding the bytes Outcome returns gives exactly outcome_step of the decoded previous outcome. *)
+Theorem C10_plugin_outcome_refines : forall h cf seq prev_bytes aos bs,
+  bok prev_bytes -> aos_good aos -> plugin_outcome h cf seq prev_bytes aos = Ok bs -> small bs ->
+  decode_outcome (c_pver cf) bs =
+  outcome_step h cf seq (match decode_outcome (c_pver cf) prev_bytes with Ok p => p | _ => initial_outcome cf end) aos.
+Proof. exact plugin_outcome_refines. Qed.
+Print Assumptions C10_plugin_outcome_refines.
 
 (* canonical: each flattened slice is sorted by pairwise distinct ids, so the order in which the Go map was built
    or iterated cannot influence the bytes *)
